@@ -128,7 +128,7 @@ theorem only_iff (ofType : Bool) (l : Loc) (hl : LocalOk l) :
       have hk' : n.kind = .elem := hk
       have hs := skips_self ofType n hk'
       have hnk : ((Loc.mk n (f :: fs)).kind != Kind.elem) = false := by simp [hk]
-      simp only [hnk, Bool.false_eq_true, ↓reduceIte, hk, true_and, Loc.data]
+      simp only [hk, true_and, Loc.data]
       rw [onlyLoop_eq ofType n.data _ 0 (by omega)]
       have hm : (sibList f n).map (·.2) = f.left.reverse ++ n :: f.right := by
         simp [sibList, Function.comp_def]
